@@ -135,7 +135,7 @@ def marshalM : V → R (Bytes × V)
   | _ => .panic
 def unmarshal : V → Slice → R V
   | .obj "ActionSetqueue" [h, _], data =>
-    if data.len ≠ 8 then .err else do
+    if data.len < 8 then .err else do
       let d4 ← data.uptoR 4
       let (h', _) ← tryE (ActionHeader.unmarshal h d4) h     -- error ignored (cannot fail)
       let q ← data.u32In 4 8
